@@ -1630,7 +1630,12 @@ def _list_remove(it, l, x):
     del l.items[i]
 
 
-LIST_METHODS = {'append': _list_append, 'extend': _list_extend, 'pop': _list_pop, 'index': _list_index,
+def _list_popleft(it, l):
+    # collections.deque modelled as a list: popleft() == pop(0)
+    return _list_pop(it, l, 0)
+
+
+LIST_METHODS = {'append': _list_append, 'extend': _list_extend, 'pop': _list_pop, 'index': _list_index, 'popleft': _list_popleft,
                 'remove': _list_remove,
                 'clear': lambda it, l: _list_clear(it, l),
                 'copy': lambda it, l: PyList(l.items) if isinstance(l, PyList) else SymList(l.prefix, l.items),
@@ -2314,6 +2319,23 @@ def isinstance_(it, v, t):
             return n == 'float'
         return False
     pytypes = {'str': str, 'int': int, 'bool': bool, 'float': float, 'tuple': tuple}
+    if n in ('Sized', 'Collection', 'Sequence', 'Iterator', 'Generator'):
+        # the abstract base classes of collections.abc, by what the modelled value kinds are in CPython
+        import collections.abc as _abc
+        if isinstance(v, Stream):
+            return n in getattr(v, 'kinds', ('Iterable',))          # a contract may declare a lazy source that knows its length
+        if isinstance(v, GenObj):
+            return n in ('Iterator', 'Generator')
+        if isinstance(v, (str, tuple)):
+            return isinstance(v, getattr(_abc, n))
+        if isinstance(v, (PyList, SymList, SymSeq)):
+            return n in ('Sized', 'Collection', 'Sequence')
+        if isinstance(v, (Row, PyDict, Tree, SetV)):
+            return n in ('Sized', 'Collection')
+        if v is None or isinstance(v, (int, float, bool)):
+            return False
+        if isinstance(v, SV):
+            return n in ('Sized', 'Collection', 'Sequence') and v.t.sort().eq(StrS)
     if v is None:
         return n == 'NoneType'
     if isinstance(v, (str, int, float, bool, tuple)):
